@@ -208,9 +208,19 @@ end
 
 def missing (tb : Tables) (G : Cfg Float) (e : Expr) : Option String :=
   let ss := subs e
-  let floats := ss.flatMap fun s => match Impl.eval G s with
-    | .val v => valFloats v
-    | .err _ _ => []
+  -- floats that are printed: operands of the text operators and of comparisons that are not
+  -- between two numbers
+  let floats := ss.flatMap fun s => match s with
+    | .bin o _ l r =>
+      (match Impl.eval G l, Impl.eval G r with
+       | .val a, .val b =>
+         let textual := match o with
+           | .like | .hasprefix | .hassuffix => true
+           | .geq | .gt | .leq | .lt => (match a, b with | .num _, .num _ => false | _, _ => true)
+           | _ => false
+         if textual then valFloats a ++ valFloats b else []
+       | _, _ => [])
+    | _ => []
   match floats.find? (fun x => (tb.ftext.find? (·.1 = fbits x)).isNone) with
   | some x => some ("MISSING-FLOAT:" ++ hex16 (fbits x))
   | none =>
